@@ -10,6 +10,8 @@ class C06(Spec):
     tags = "faketime"
     driver = "drv_cache"
     monitor = True
+    # faketime + many Ps can live-lock inside the Go runtime's GC; the harness itself runs scenarios with 1 P (4 in marked phases)
+    harness_env = {"GOMAXPROCS": "2"}
     shrink_sep = " ; "
     rule = ("one case = one timed scenario on a fresh cache under the Go fake clock. Burst scenarios: per round P long loads keep "
             "every worker inside a loader while a sweep tick becomes due, then J+3 Loads over distinct keys (distinct shards) 1 ns "
